@@ -8,7 +8,7 @@ sched.cov_register(__name__.split('.')[-1])      # dev-only: VERIF_COVERAGE=1
 ID = 'C10'
 COQ_MODEL = 'model.TsProps'
 COQ_CORR = 'corr_C10'
-N_QUICK = 1300
+N_QUICK = 850
 N_THOROUGH = 6000
 THOROUGH_EXHAUSTIVE = False
 VM_CASES = 30
@@ -171,8 +171,8 @@ def corpus():
         _arr(2, [_call(0, 'tA', [['ret', 'static']])], default=True),
         # witness of the listed finding C10-listeners-shared: two threads on the SAME application (another application's
         # changes are never heard: see the listen_around cases above)
-        _arr(2, [_call(1, 'tA', [['listen_around', [['see']] * 6]]), _call(1, 'tC', [['req_set', 'HTTP_X_T', 'tCxt'], ['req_del']])],
-             start=0, switches=[[550, 1]]),
+        _arr(2, [_call(1, 'tA', [['listen_around', [['yield_to', 1], ['see']]]]), _call(1, 'tC', [['req_set', 'HTTP_X_T', 'tCxt'], ['req_del']])],
+             start=0, switches=[]),
         # an application configured from another one's config namespace (constructor / setup, same thread / other thread)
         # whose options are then changed in place: the first one keeps its options and its body limit
         dict(_arr(2, [_call(0, 'tA', [['see'], ['new_app_from', 'ctor'], ['see'], ['form_see'], ['new_app_from', 'setup'],
@@ -184,6 +184,12 @@ def corpus():
                                  ['see'], ['args_write'], ['see']], route='static')]),
         _arr(2, [_call(0, 'tA', [['call', _call(1, 'tB', [['see']], route='rex')], ['see']], route='rex', inject=True)],
              default=True),
+        # the cached header view belongs to the request that built it: a copy / a forwarded copy whose headers change
+        # leaves the original's view alone
+        _arr(2, [_call(0, 'tA', [['see'], ['copy'], ['see'], ['call_copy', 1, [['req_set', 'HTTP_X_T', 'tAccxt'], ['see']]],
+                                 ['see'], ['ext'], ['see']], xt='tAxt0', cookie='c=tAc')]),
+        dict(_arr(2, [_call(1, 'tA', [['ext'], ['see'], ['call', _call(0, 'tB', [['see'], ['ext'], ['see']], xt='tBxt0')], ['see']])],
+             default=True), ctx_copy=True),
         # redirect() works for the default application ...
         _arr(2, [_call(0, 'tA', [['see'], ['redirect', '?to=tA']])], default=True),
         # ... and (finding C10-redirect-default-app) reads the default application's request from any other one
@@ -320,6 +326,9 @@ def _gen_script(rng, tok, napps, depth, counter, busy=(), default=False):
                 script.append(['form_see'])       # this request's body is read (and buffered) before it is copied
             cc = ['call_copy', j, [['see']] * rng.randrange(0, 2) + [['hdr', 'X-B', tok + 'cch']] * rng.randrange(0, 2)]
             if rng.random() < 0.5:
+                # the other application changes a header of the request IT serves (the forwarded copy)
+                cc[2] = [['req_set', 'HTTP_X_T', tok + 'ccxt'], ['see']] + cc[2]
+            if rng.random() < 0.5:
                 cc.append({'hook_input': True})   # the other application's hook gives ITS request a new input stream
             script.append(cc)
             script.append(['see'])
@@ -386,6 +395,8 @@ def _gen_arr(rng):
             kw['cookie'] = 'c=%sc' % tok
         if rng.random() < 0.3:
             kw['readonly'] = True         # the (legal) 'ombott.request.readonly' flag in the environ
+        if rng.random() < 0.35:
+            kw['xt'] = tok + 'xt0'        # a request header (read through the cached header view in every see)
         if rng.random() < 0.3:
             kw['signed'] = True           # the same signed cookie (mutable payload, shared secret) for every application
         if rng.random() < 0.25:
@@ -397,7 +408,8 @@ def _gen_arr(rng):
         if kw.get('signed'):
             script.insert(rng.randrange(len(script)), ['sess_mutate'])
         if kw.get('readonly'):
-            script = [a[:3] if a[0] == 'call_copy' else a for a in script]    # no input replacement on a read-only environ
+            # no input replacement / header change through the request on a read-only environ
+            script = [[a[0], a[1], [b for b in a[2] if b[0] != 'req_set']] if a[0] == 'call_copy' else a for a in script]
         if rng.random() < 0.2:
             kw = _body_kw(rng, tok, j, default)
             script = _end_in_body_error(script)
@@ -418,7 +430,8 @@ def _gen_arr(rng):
     if nthreads > 1:
         for _ in range(rng.randrange(0, 4)):
             switches.append([rng.randrange(1, 1000), rng.randrange(nthreads)])
-    return dict(_arr(napps, calls, default=default, start=rng.randrange(nthreads), switches=switches), max_body=30, cfg=cfg)
+    return dict(_arr(napps, calls, default=default, start=rng.randrange(nthreads), switches=switches), max_body=30, cfg=cfg,
+                ctx_copy=rng.random() < 0.25)
 
 
 def gen(rng, n):
